@@ -6,6 +6,7 @@ builders + Grid properties run on the same tables; the property clauses are addi
 checked directly on the implementation's output.
 """
 import itertools
+import math
 import json
 import os
 
@@ -100,9 +101,14 @@ def make_supplied(table, idx):
     return pairs
 
 
-def impl_grid(table, lon=None, lat=None, order=0, lay=0, supplied=None):
+def impl_grid(table, lon=None, lat=None, order=0, lay=0, supplied=None, dt=0):
     import uxarray as ux
     t = layout(np.array(table, dtype=np.intp), lay)
+    fill = FILL
+    if dt:
+        # the same faces handed over as int32 / int64 with -1 padding, or one-based (the derived tables must not care)
+        fill = -1
+        t = np.where(t == FILL, -1, t).astype(np.int32 if dt == 1 else np.int64)
     kw = {}
     if supplied:
         # the source ships its own edge table: face_edge must index THAT table
@@ -111,7 +117,7 @@ def impl_grid(table, lon=None, lat=None, order=0, lay=0, supplied=None):
     if lon is None:
         lon = np.linspace(-170, 170, n)
         lat = np.linspace(-80, 80, n)
-    g = ux.Grid.from_topology(np.array(lon, dtype=float), np.array(lat, dtype=float), t, fill_value=FILL, **kw)
+    g = ux.Grid.from_topology(np.array(lon, dtype=float), np.array(lat, dtype=float), t, fill_value=fill, **kw)
     # order of first access is part of the quantifier ("any history"): three orders
     if order == 0:
         e = g.edge_node_connectivity.values
@@ -163,6 +169,22 @@ def gen_cases(ck):
     for _ in range(n_rand):
         n, t = meshgen.gen_table(rng)
         cases.append({"kind": "random_table", "table": t})
+    # one large structured mesh (> 4096 edges): array-wide shortcuts and blocked loops only trigger on large inputs
+    for bi in range(1 if ck.tier == "quick" else 3):
+        nlon, nlat = 64 + 7 * bi, 33 + bi
+        nodes_b, faces_b = [], []
+        for j in range(nlat + 1):
+            for i in range(nlon):
+                la = math.radians(-80 + 160.0 * j / nlat); lo = math.radians(-180 + 360.0 * (i + 0.5) / nlon)
+                nodes_b.append((math.cos(la) * math.cos(lo), math.cos(la) * math.sin(lo), math.sin(la)))
+        for j in range(nlat):
+            for i in range(nlon):
+                q = [j * nlon + i, j * nlon + (i + 1) % nlon, (j + 1) * nlon + (i + 1) % nlon, (j + 1) * nlon + i]
+                faces_b.append(q if (i + j) % 5 else q[:3])          # mixed sizes: every fifth cell is a triangle
+                if not (i + j) % 5:
+                    faces_b.append([q[0], q[2], q[3]])
+        mb = meshgen.Mesh(nodes_b, faces_b, closed=False, name="band%dx%d" % (nlon, nlat))
+        cases.append({"kind": "mesh", "table": mb.table(4), "closed": False, "lonlat": mb.lonlat(), "n_node": len(mb.nodes), "name": mb.name})
     n_mesh = 150 if ck.tier == "quick" else 3000
     for i in range(n_mesh):
         big = ck.tier == "thorough" and i % 50 == 0
@@ -195,7 +217,7 @@ def run_case_impl(ck, c, idx):
             sup = make_supplied(t, idx)
         sup = rp.get("supplied_edges", sup) or None
         e, fe, npf, ne, g = impl_grid(t, ll[0] if ll else None, ll[1] if ll else None, order=rp.get("order", idx % 3),
-                                      lay=rp.get("layout", (idx // 3) % 3), supplied=sup)
+                                      lay=rp.get("layout", (idx // 3) % 3), supplied=sup, dt=rp.get("dtype", (idx // 7) % 3))
         sup_good = True
         if sup:
             rows_ = [[x for x in r if x != FILL] for r in t]
@@ -208,7 +230,7 @@ def run_case_impl(ck, c, idx):
                 ne = int(g.n_edge)
         bad = spec_check(t, e, fe, npf, ne)
         if bad:
-            ck.fail(bad, {"table": t, "level": "grid", "order": idx % 3, "layout": (idx // 3) % 3, "supplied_edges": sup}, {"level": "grid", "supplied_edges": bool(sup)},
+            ck.fail(bad, {"table": t, "level": "grid", "order": idx % 3, "layout": (idx // 3) % 3, "supplied_edges": sup, "dtype": (idx // 7) % 3}, {"level": "grid", "supplied_edges": bool(sup)},
                     detail=json.dumps({"edges": e, "face_edge": fe, "npf": npf}))
         res["grid"] = canon(e, fe, npf)
         if sup:
